@@ -156,8 +156,10 @@ def h_array(ip, st, args, kw, node):
         return Tup(x.items, 'vec')
     if isinstance(x, Poly) and x.const_value() is not None and 'dtype' not in kw:
         return x
-    extra = [kw['dtype']] if 'dtype' in kw else []
-    return app('copy', P(x), *extra)
+    dt = kw.get('dtype', args[1] if len(args) > 1 else None)
+    if dt is not None and dt != NONE:
+        return app('copy', app('cast', P(x), dt))      # a new array of another type
+    return app('copy', P(x))
 
 
 def h_broadcast_to(ip, st, args, kw, node):
